@@ -9,6 +9,17 @@ ROOT = os.path.dirname(os.path.dirname(os.path.abspath(__file__)))
 
 # id -> (level, technique, text, note, design_ref)
 CHECKS = {
+    "C13": (
+        "exploration",
+        "deterministic simulation with injected result-store faults (n-th store_bucket raising; Redis -ERR reply / connection reset at a seeded step), compared against a fault-free twin run",
+        "1-5 jobs with own result ids (values, exceptions, timeouts, retry chains, recurring, eager responses with "
+        "set_result/set_exception/callbacks, ttl, storing on/off) on a worker with in-memory or Redis message+bucket brokers. "
+        "Job.result must equal the latest finished execution's outcome; nothing written when disabled. With a store fault: final "
+        "places equal the fault-free twin's, no terminal action after the failed store, the worker finishes its other jobs; the "
+        "bucket may hold an older outcome or nothing, never wrong data. Thorough: the failing call index is swept.",
+        "Samples scenarios; RabbitMQ has no bucket broker and is covered through the message-broker independent part (in-memory buckets) by C02.",
+        "DESIGN.md section 8 C13",
+    ),
     "C12": (
         "exploration",
         "deterministic simulation with a microsecond clock: consumer fetches placed at expiry -1 s .. +1 s including exactly at it; saturated workers with prefetched messages; DEAD-category retrieval",
